@@ -21,11 +21,8 @@ instance is split into the pieces between which another process can act:
 * `capture i`           the loop of `update_delayed_call(id, {processing: True},
                         query_filter={processing: False})` CASes of that transaction (+ commit);
                         only rows whose CAS matched are kept; nothing captured → iteration over.
-                        `_prepare_calls` follows without DB access: if a captured call cannot be
-                        prepared it raises out of `_process_delayed_calls` — the iteration is over,
-                        the whole batch keeps `processing = True` (instance alive).
-                        (Under READ COMMITTED two instances can both have selected a row before
-                        either CAS runs: that is why select and capture are separate steps.)
+                        `_prepare_calls` follows without DB access: a captured call that cannot be
+                        prepared is logged and skipped; `todo` = the preparable ones.
 * `invoke i`            the next call of the `_invoke_calls` loop (exceptions of the target are
                         swallowed there; `_prepare_calls` does no DB access and is not a step).
 * `delete i`            `delete_calls`: `delete_delayed_calls(id in captured ids)`, iteration over.
@@ -49,7 +46,7 @@ deriving DecidableEq, Repr
 inductive LPhase where
   | idle
   | selected (cands : List Nat)          -- ids returned by the select, in order
-  | busy (ids todo : List Nat)           -- captured ids; `todo` = the ones still to invoke, in order
+  | busy (ids todo : List Nat)           -- captured ids; `todo` = the prepared ones still to invoke, in order
 deriving DecidableEq, Repr
 
 structure LState where
@@ -120,12 +117,16 @@ def lDelete (ids : List Nat) (rows : List LRow) : List LRow :=
 def lEndTx (tx : Nat) (outcome : Vis) (rows : List LRow) : List LRow :=
   rows.map fun r => if r.vis = .uncommitted tx then { r with vis := outcome } else r
 
-/-- some captured call cannot be prepared: `_prepare_calls` raises out of `_process_delayed_calls`
-    (after `_capture_calls` has committed the flags) and the iteration is over -/
-def lAnyBad (rows : List LRow) (ids : List Nat) : Bool :=
-  ids.any fun j => match rows[j]? with
-    | some r => r.bad
-    | none => false
+def lIsBad (rows : List LRow) (j : Nat) : Bool :=
+  match rows[j]? with
+  | some r => r.bad
+  | none => false
+
+/-- `_prepare_calls`: the captured calls that can be prepared, in order; a call that cannot is
+    logged and skipped (it is deleted with the rest of the batch by `delete_calls`) -/
+def lGood (rows : List LRow) (ids : List Nat) : List Nat := ids.filter fun j => !lIsBad rows j
+
+def lAnyBad (rows : List LRow) (ids : List Nat) : Bool := ids.any (lIsBad rows)
 
 def lStep (batch : Option Nat) (s : LState) : LStep → LState
   | .schedule ra key tx =>
@@ -147,8 +148,8 @@ def lStep (batch : Option Nat) (s : LState) : LStep → LState
         rows := (lCaptureAll cands s.rows).1
         caps := ((lCaptureAll cands s.rows).2.map fun j => (j, s.clock, i)).reverse ++ s.caps
         insts := s.insts.set i (true,
-          if (lCaptureAll cands s.rows).2 = [] || lAnyBad s.rows (lCaptureAll cands s.rows).2 then .idle
-          else .busy (lCaptureAll cands s.rows).2 (lCaptureAll cands s.rows).2) }
+          if (lCaptureAll cands s.rows).2 = [] then .idle
+          else .busy (lCaptureAll cands s.rows).2 (lGood s.rows (lCaptureAll cands s.rows).2)) }
     | _ => s
   | .invoke i =>
     match s.insts[i]? with
